@@ -1,6 +1,7 @@
 package zz_verifsim
 
 import (
+	bls12 "github.com/kilic/bls12-381"
 	"fmt"
 	"time"
 
@@ -414,6 +415,36 @@ func (a *adversary) onPropose(nd *Node, p *hotstuff.ProposeMsg) bool {
 	}
 	w := a.w
 	b := p.Block
+	if has(acts, "aggforge") && p.AggregateQC != nil && len(a.qcs) > 0 && a.chance(0.8) {
+		// A valid aggregate whose high QC is genuine (the leader attests the newest QC it knows), and a block that
+		// extends the certified block but embeds a spoiled copy of that QC: same view and hash, bad signature.
+		x := a.qcs[0]
+		for _, c := range a.qcs {
+			if c.View() > x.View() {
+				x = c
+			}
+		}
+		if agg, ok := a.attestInAggregate(nd, *p.AggregateQC, x); ok && x.View() < b.View() {
+			var bad hotstuff.QuorumSignature
+			switch a.intn(3) {
+			case 0:
+				bad = truncSig(x.Signature(), 1+a.intn(2))
+			case 1:
+				bad = relabelSig(x.Signature(), w.plan.N)
+			default:
+				bad = repeatSig(a.ownSig(nd, w.reg.get(x.BlockHash()).ToBytes()), quorumOf(w.plan.N))
+			}
+			if bad != nil && w.reg.get(x.BlockHash()) != nil {
+				b2 := hotstuff.NewBlock(x.BlockHash(), hotstuff.NewQuorumCert(bad, x.View(), x.BlockHash()), b.Commands(), b.View(), nd.id)
+				w.reg.add(b2, nd)
+				for _, id := range a.others(nd) {
+					a.sendTo(nd, id, "propose", hotstuff.ProposeMsg{ID: nd.id, Block: b2, AggregateQC: &agg})
+				}
+				a.fired("aggforge")
+				return true
+			}
+		}
+	}
 	if has(acts, "aggtwin") && p.AggregateQC != nil && a.chance(0.8) {
 		// the leader's own entry of the aggregate attests a relabelled copy of the genuine high QC (same bytes,
 		// same view, signer labels rotated): honestly signed by the leader, invalid as a certificate
@@ -532,6 +563,85 @@ func (a *adversary) twinInAggregate(nd *Node, agg hotstuff.AggregateQC) (hotstuf
 	return hotstuff.NewAggregateQC(qcs, sig, agg.View()), true
 }
 
+// rogueKeyQC forges a certificate with the rogue key: genuine votes of q-2 honest replicas for one block, plus
+// H(block)^x, named as an aggregate of those replicas, the victim and the rogue replica. Arithmetically the victim's
+// key cancels out; only the proof-of-possession check stands between this and an accepted certificate.
+func (a *adversary) rogueKeyQC(nd *Node) (hotstuff.QuorumCert, bool) {
+	w := a.w
+	k := w.keys
+	if k.rogue != nd.id || k.rogueX == nil {
+		return hotstuff.QuorumCert{}, false
+	}
+	need := quorumOf(w.plan.N) - 2
+	// the newest block with enough genuine single votes of replicas other than victim and rogue
+	for i := len(a.votes) - 1; i >= 0 && i >= len(a.votes)-64; i-- {
+		h := a.votes[i].BlockHash()
+		b := w.reg.get(h)
+		if b == nil {
+			continue
+		}
+		g2 := bls12.NewG2()
+		sum := g2.Zero()
+		bf := crypto.Bitfield{}
+		got := map[hotstuff.ID]bool{}
+		for j := len(a.votes) - 1; j >= 0 && len(got) < need; j-- {
+			v := a.votes[j]
+			sg, ok := v.Signature().(*crypto.BLS12AggregateSignature)
+			if !ok || sg == nil || v.BlockHash() != h || sg.Participants().Len() != 1 {
+				continue
+			}
+			id := v.Signer()
+			if id == k.victim || id == k.rogue || got[id] || !w.orc.honestSigned(id, b.ToBytes()) {
+				continue
+			}
+			pt, err := bls12.NewG2().FromCompressed(sg.ToBytes())
+			if err != nil {
+				continue
+			}
+			g2.Add(sum, sum, pt)
+			bf.Add(id)
+			got[id] = true
+		}
+		if len(got) < need {
+			continue
+		}
+		hp, err := g2.HashToCurve(b.ToBytes(), blsDomain)
+		if err != nil {
+			return hotstuff.QuorumCert{}, false
+		}
+		g2.MulScalarBig(hp, hp, k.rogueX)
+		g2.Add(sum, sum, hp)
+		bf.Add(k.victim)
+		bf.Add(k.rogue)
+		agg, err := crypto.RestoreBLS12AggregateSignature(g2.ToCompressed(sum), bf)
+		if err != nil {
+			return hotstuff.QuorumCert{}, false
+		}
+		return hotstuff.NewQuorumCert(agg, b.View(), b.Hash()), true
+	}
+	return hotstuff.QuorumCert{}, false
+}
+
+// attestInAggregate rebuilds an aggregate certificate so that the Byzantine replica's own entry attests qc.
+func (a *adversary) attestInAggregate(nd *Node, agg hotstuff.AggregateQC, qc hotstuff.QuorumCert) (hotstuff.AggregateQC, bool) {
+	own := a.ownSig(nd, hotstuff.TimeoutMsg{ID: nd.id, View: agg.View(), SyncInfo: hotstuff.NewSyncInfoWith(qc)}.ToBytes())
+	if own == nil {
+		return agg, false
+	}
+	sig := replaceSigner(agg.Sig(), nd.id, own)
+	if sig == nil {
+		return agg, false
+	}
+	qcs := map[hotstuff.ID]hotstuff.QuorumCert{}
+	for id := 1; id <= a.w.plan.N; id++ {
+		if c, ok := agg.QCs()[hotstuff.ID(id)]; ok {
+			qcs[hotstuff.ID(id)] = c
+		}
+	}
+	qcs[nd.id] = qc
+	return hotstuff.NewAggregateQC(qcs, sig, agg.View()), true
+}
+
 // replaceSigner returns the multi-signature with id's entry replaced by (or, if absent, extended with) the
 // single signature own, entries sorted by signer.
 func replaceSigner(sig hotstuff.QuorumSignature, id hotstuff.ID, own hotstuff.QuorumSignature) hotstuff.QuorumSignature {
@@ -586,6 +696,26 @@ func (a *adversary) onTimeout(nd *Node, m *hotstuff.TimeoutMsg) bool {
 	acts := a.acts(nd)
 	if acts == nil || !a.chance(nd.byz.Rate) {
 		return false
+	}
+	if has(acts, "aggattest") && m.MsgSignature != nil && len(a.qcs) > 0 && a.chance(0.5) {
+		// every second timeout of the Byzantine replica attests the newest genuine QC it has seen (the others attest
+		// whatever its stack holds): aggregates with and without that QC alternate at the honest replicas
+		qc := a.qcs[0]
+		for _, c := range a.qcs {
+			if c.View() > qc.View() {
+				qc = c
+			}
+		}
+		fm := *m
+		si := fm.SyncInfo
+		si.SetQC(qc)
+		fm.SyncInfo = si
+		fm.MsgSignature = a.ownSig(nd, fm.ToBytes())
+		for _, id := range a.others(nd) {
+			a.sendTo(nd, id, "timeout", fm)
+		}
+		a.fired("aggattest")
+		return true
 	}
 	if has(acts, "aggtwin") && m.MsgSignature != nil && a.chance(0.8) {
 		// its own timeout attests a relabelled twin of its high QC (the signed bytes are the same): honest
@@ -800,6 +930,15 @@ func (a *adversary) onNewView(nd *Node, to hotstuff.ID, si *hotstuff.SyncInfo) b
 	acts := a.acts(nd)
 	if acts == nil || !a.chance(nd.byz.Rate) {
 		return false
+	}
+	if has(acts, "roguekey") && a.chance(0.8) {
+		if qc, ok := a.rogueKeyQC(nd); ok {
+			for _, id := range a.others(nd) {
+				a.sendTo(nd, id, "newview", hotstuff.NewViewMsg{ID: nd.id, SyncInfo: hotstuff.NewSyncInfoWith(qc), FromNetwork: true})
+			}
+			a.fired("roguekey")
+			return true
+		}
 	}
 	if agg, ok := si.AggQC(); ok && has(acts, "aggtwin") && a.chance(0.8) {
 		if tw, ok := a.twinInAggregate(nd, agg); ok {
